@@ -40,7 +40,8 @@ def c03_stages(ctx):
 def handles_stages(ctx):
     cfg = "Handles.quick.cfg" if ctx.tier == "quick" else "Handles.thorough.cfg"
     walks = ["--walks", "150" if ctx.tier == "quick" else "1500", "--walk-len", "300"]
-    graph_stage(ctx, "handles", "MC_Handles.tla", cfg, "handles", FS_ADAPTERS, walks, workers=8)
+    # oshp: handles of the library's os.FS (thin wrappers of *os.File), judged against the same model as mem / kvplain
+    graph_stage(ctx, "handles", "MC_Handles.tla", cfg, "handles", list(FS_ADAPTERS) + ["oshp"], walks, workers=8)
 
 
 DIRH_ALL = ("mem", "kvplain", "osref", "oshp", "mntat", "mntbelow", "sub", "cache", "tar")
